@@ -821,6 +821,16 @@ func (r *proxyStreamReceiver) recvReplicationMessages(
 				continue
 			}
 
+			// A target shard that is handed tasks constrains the aggregated ack from now on, not only once its
+			// first ack has arrived: nothing at or above its first outstanding task may be acknowledged upstream
+			r.ackMu.Lock()
+			for targetShardID, tasks := range tasksByTargetShard {
+				if _, reported := r.ackByTarget[targetShardID]; !reported {
+					r.ackByTarget[targetShardID] = tasks[0].SourceTaskId
+				}
+			}
+			r.ackMu.Unlock()
+
 			// Retry across the whole target set until all sends succeed (or shutdown)
 			sentByTarget := make(map[history.ClusterShardID]bool, len(tasksByTargetShard))
 			loggedByTarget := make(map[history.ClusterShardID]bool, len(tasksByTargetShard))
